@@ -108,4 +108,50 @@ def check(ctx, clause):
                           "memo %s[%s] in %s stores a value computed from %s, which the key does not contain: the first "
                           "computation wins for every later input that shares the key" % (norm(d), norm(k)[:30], f.short, ", ".join(missing)),
                           note=not ctx.reachable(f)))
+    o2, n2 = lazy_slots(ctx, clause)
+    return obs + o2, n + n2
+
+
+def _none_test(test):
+    """self.X when the test is `self.X is None` / `self.X == None` / `not self.X`."""
+    if isinstance(test, ast.Compare) and len(test.ops) == 1 and isinstance(test.ops[0], (ast.Is, ast.Eq)) \
+            and isinstance(test.comparators[0], ast.Constant) and test.comparators[0].value is None and is_self_attr(test.left):
+        return test.left.attr
+    if isinstance(test, ast.UnaryOp) and isinstance(test.op, ast.Not) and is_self_attr(test.operand):
+        return test.operand.attr
+    return None
+
+
+def lazy_slots(ctx, clause):
+    """Single-slot lazy memo: `if self.X is None: self.X = V`.  The slot has no key, so V must not depend on a parameter of
+    the function: the first caller's argument would be baked in for every later caller."""
+    obs, n = [], 0
+    for f in ctx.p.funcs.values():
+        if f.cls is None or f.name == "__init__":
+            continue
+        prms = [x for x in list(f.bound_params) + list(f.kwonly)]
+        if not prms:
+            continue
+        defs = {}
+        for x in walk_own(f.node):
+            if isinstance(x, ast.Assign):
+                for t in x.targets:
+                    if isinstance(t, ast.Name):
+                        defs.setdefault(t.id, []).append(x.value)
+        for x in walk_own(f.node):
+            if not isinstance(x, ast.If):
+                continue
+            slot = _none_test(x.test)
+            if slot is None:
+                continue
+            for st in x.body:
+                if isinstance(st, ast.Assign) and any(is_self_attr(t, slot) for t in st.targets):
+                    n += 1
+                    vp = sorted(p for p in _paths(st.value, defs, f) if p.split(".")[0].split("[")[0] in prms)
+                    key = "R-MEMO|lazy-slot|%s|self.%s" % (f.short, slot)
+                    obs.append(Ob(clause, "R-MEMO", key, f.loc(st), not vp,
+                                  "lazy slot self.%s in %s is filled from the object's own state only" % (slot, f.short) if not vp else
+                                  "lazy slot self.%s in %s is filled once from the argument(s) %s and returned to every later caller "
+                                  "whatever they pass: the first call decides for all" % (slot, f.short, ", ".join(vp)),
+                                  note=not ctx.reachable(f)))
     return obs, n
